@@ -68,9 +68,13 @@ Definition C08_statement : Prop :=
    (An earlier formalization here compared the leader's term with the ENTRY's term; that is false of the model
    and of every Raft implementation: a stale leader of term 2, partitioned away, keeps its role while an entry
    of term 1 it never received is committed by the leader of term 3.  That formalization was ours, not the
-   property's, and has been corrected.) *)
+   property's, and has been corrected.)
+   The node must be a running one (not frozen): a node whose storage write was refused is a dead process in the
+   model - its in-memory fields, the commit index among them, are what the process had computed when it died
+   (h_append_entries sets the commit index even when the truncation it needed was refused; in the code the
+   refused write ends the process, logger.Fatalf, before the commit index is touched) and nobody reads them. *)
 Definition committed_in (w : world) (e : entry) (T : N) : Prop :=
-  exists n, In n (w_nodes w) /\ In e (n_log n) /\ e_index e <= n_commit n /\ n_term n <= T.
+  exists n, In n (w_nodes w) /\ n_frozen n = false /\ In e (n_log n) /\ e_index e <= n_commit n /\ n_term n <= T.
 Definition C07_statement : Prop :=
   forall ids boot et ld ls1 ls2, static (ls1 ++ ls2) = true -> nosnap (ls1 ++ ls2) = true ->
     let w1 := run (init_world ids boot et ld) ls1 in
